@@ -8,6 +8,15 @@ bit pairs); the text written is accepted by the reader; Inv of the re-read netli
 Normalisation taken from docs/source/reference/verilog_support.rst: ports of undefined direction (inferred black boxes) are
 written as inout ("defaults to inout on write"), so UNDEFINED before == INOUT after.  From IEEE 1364 3.7.1: the leading
 backslash of an escaped identifier is not part of the name, so a/b (flatten) == \\a/b (re-read).
+
+Aliased header ports.  gen_hier makes the single-bit breakouts of the support page (.p({\\p[1] , \\p[0] }), 1-bit nets).  Each seeded
+design is also widened (render_verilog.alias_shapes, up to "alias_variants" = 3 independent attempts) to aliases onto bits of VECTOR
+nets: the net that carries the port's own name in permuted order / re-based / as a sub-range or selection / shared with a second port,
+other nets in order or permuted, and mixtures.  The support page calls the reader limited beyond single-bit breakouts, and it is: it
+re-bases or resizes the port onto the declared range of such a net, or refuses the text.  A widened design therefore counts only when
+the reader returns what its text says for the modules that were changed (misread_aliases: the C06 oracle restricted to those modules);
+otherwise the next variant and finally the plain design is run, so no seed loses the case it had.  Counters "vector_alias_cases" /
+"misread_aliases" in the output.  Replays carry the design that was run and "alias_defs".
 """
 import sys, json, os, random, copy
 import rtcommon as R
